@@ -77,7 +77,8 @@ Inductive action :=
 | AAck (l v : N) (i : nat)
 | ACommit (l : N) (k : nat) (Q : list N)
 | AFlush (n : N) (k : nat)
-| ACrash (n : N) (c : nat).
+| ACrash (n : N) (c : nat)
+| AInstall (f t l : N) (K : list entry) (c : nat).
 
 Definition is_leader (r : Role) : bool := match r with Leader => true | _ => false end.
 Definition is_cand (r : Role) : bool := match r with Candidate => true | _ => false end.
@@ -103,6 +104,7 @@ Definition apply (a : action) (s : state) : state :=
   | ACommit l k _ => do_commit l k s
   | AFlush n k => do_flush n k s
   | ACrash n c => do_crash n c s
+  | AInstall f t l K c => do_install f t l K c s
   end.
 
 Definition guardb (a : action) (s : state) : bool :=
@@ -140,6 +142,13 @@ Definition guardb (a : action) (s : state) : bool :=
       forallb (fun v => (v =? l) || match_geb (matchIdx x) v k) Q
   | AFlush n k => (flushed (st s n) <=? k)%nat && (k <=? length (log (st s n)))%nat
   | ACrash n c => (c <=? commit (st s n))%nat
+  | AInstall f t l K c =>
+      let x := st s f in
+      negb (f =? l) && (cur x <=? t) &&
+      existsb (fun r => (fst (fst r) =? t) && (snd (fst r) =? l)) (elected s) &&
+      existsb (fun r => (fst (fst r) <=? t) && (length K <=? snd (fst r))%nat &&
+                        log_eqb K (firstn (length K) (snd r))) (cmts s) &&
+      (commit x <=? c)%nat && (c <=? Nat.max (commit x) (length K))%nat
   end.
 End Run.
 
@@ -198,6 +207,20 @@ Proof.
       * right. apply match_geb_ok; assumption.
   - apply SFlush. apply Nat.leb_le in H, H0. lia.
   - apply SCrash. apply Nat.leb_le; assumption.
+  - apply existsb_exists in H3. destruct H3 as [[[t' l'] L0] [He H3]]. simpl in H3.
+    apply andb_true_iff in H3. destruct H3 as [E1 E2].
+    apply N.eqb_eq in E1, E2. subst t' l'.
+    apply existsb_exists in H2. destruct H2 as [[[tc k] M] [Hc H2]]. simpl in H2.
+    splitb.
+    repeat match goal with
+    | H : negb _ = true |- _ => apply negb_true_iff in H
+    | H : (_ =? _) = false |- _ => apply N.eqb_neq in H
+    | H : (_ <=? _) = true |- _ => apply N.leb_le in H
+    | H : (_ <=? _)%nat = true |- _ => apply Nat.leb_le in H
+    end.
+    apply (SInstall _ _ _ f t l K L0 tc k M c); try assumption; try lia.
+    unfold log_eqb in *.
+    destruct (list_eq_dec entry_eq_dec K (firstn (length K) M)); [assumption | discriminate].
 Qed.
 
 Fixpoint run (V0 : list N) (gb : bool) (acts : list action) (s : state) : option state :=
